@@ -28,7 +28,7 @@ RULE = ("scenario = establishment outcome x 0..4 messages with per-request answe
         "silence / other status / exception) and timing (tie, hops) x server-pushed notifications/requests x chunking of the event bytes x "
         "optional stream death x exit path at a generated instant; non-trivial = establishment was not the plain immediate announcement, or a "
         "request was answered over the event stream, or the exit was not the plain normal path, or the stream was chunked inside an event")
-PROBES = ["session_id_supplied_by_caller", "falsy_request_id", "event_then_post_failed", "establish_failed_status", "establish_no_announcement", "announce_at_timeout_edge", "event_before_202", "event_after_202", "silence_timeout",
+PROBES = ["second_connection_opened_and_closed_meanwhile", "session_id_supplied_by_caller", "falsy_request_id", "event_then_post_failed", "establish_failed_status", "establish_no_announcement", "announce_at_timeout_edge", "event_before_202", "event_after_202", "silence_timeout",
           "post_failed", "chunk_inside_event", "chunk_inside_utf8", "server_push_delivered", "exit_cancel_scope", "exit_task_cancel",
           "exit_exception", "cancel_while_waiting_for_event", "stream_died", "int_request_id", "push_right_after_response_event"]
 TIERS = {"quick": {"runs": 12000, "wall": 45.0}, "thorough": {"runs": 800000, "wall": 560.0}}
@@ -41,6 +41,7 @@ STUB = ["HTTP wire (GET /sse event stream and POST endpoint): SimHTTPTransport b
 SHRINK_LISTS = ["msgs", "pushes"]
 
 BASE = "http://sim.test"
+BASE2 = "http://other.test"
 EST_KINDS = ["ok", "ok", "ok", "ok", "status", "connect_error", "empty_stream", "never_announce", "slow_announce", "connect_timeout", "ends_after_comment"]
 FORMS = ["event_endpoint", "event_endpoint", "data_only_messages", "data_only_mcp", "query_params", "full_url", "event_endpoint_crlf"]
 MODES = ["200_body", "200_body", "202_then_event", "202_then_event", "event_then_202", "202_silence", "other_status_json", "other_status_plain",
@@ -104,7 +105,9 @@ def generate(rng: random.Random, tier: str) -> dict:
             if m["mode"] in ("event_then_202", "event_then_exc", "event_then_status"):
                 m["event_at"] = min(m["event_at"], m["post_latency"])
     return {"v": 1, "timeout": timeout, "est": est, "msgs": msgs, "pushes": pushes, "chunk": chunk, "death": death, "exit": ex,
-            "keepalive": True, "session_id": rng.choice([None, None, None, "resume-abc123"])}
+            "keepalive": True, "session_id": rng.choice([None, None, None, "resume-abc123"]),
+            "bystander": ({"enter_at": rng.choice([0, 1, 30]), "stay": rng.choice([5, 60, 400, 1200]), "same_id_as": rng.choice([None, 0, 0])}
+                          if (msgs and rng.random() < 0.2) else None)}
 
 
 def systematic(tier: str):
@@ -133,6 +136,8 @@ def systematic(tier: str):
 
 
 def simplify(scn):
+    if scn.get("bystander"):
+        c = copy.deepcopy(scn); c["bystander"] = None; yield c
     if scn.get("session_id"):
         c = copy.deepcopy(scn); c["session_id"] = None; yield c
     if scn["exit"].get("early") is not None:
@@ -291,6 +296,20 @@ def execute(scn: dict) -> dict:
                 stream.end()
 
         def server(rec):
+            if rec["url"].startswith(BASE2):
+                # the other, unrelated connection of this process: announces its endpoint, acknowledges every POST, never answers
+                if rec["method"] == "GET":
+                    def on_other(stream, rec_):
+                        st["other_stream"] = stream
+                        stream.push(b"event: endpoint\ndata: /messages/?session_id=other\n\n")
+
+                        def ka():
+                            if not stream.closed:
+                                stream.push(b": ka\n\n")
+                                sim.at(sim.now() + timeout / 2, ka, tie=2)
+                        sim.at(sim.now() + timeout / 2, ka, tie=2)
+                    return {"status": 200, "headers": {"content-type": "text/event-stream"}, "chunks": [], "stay_open": True, "on_stream": on_other}
+                return {"latency": ticks(1), "status": 202, "chunks": [(0, b"Accepted")]}
             if rec["method"] == "GET":
                 k = est["kind"]
                 if k == "connect_error":
@@ -385,8 +404,22 @@ def execute(scn: dict) -> dict:
                 async for msg in read_stream:
                     st["read"].append((sim.rec("client", "got", None), sim.now(), msg))
 
+            async def bystander(by):
+                # a second SSE connection in the same process, opened and closed while the first one is in use
+                await anyio.sleep(ticks(by["enter_at"]))
+                try:
+                    async with ssemod.sse_client(SSEParameters(url=BASE2, timeout=timeout)) as (r2, w2):
+                        if by.get("same_id_as") is not None and by["same_id_as"] < len(scn["msgs"]) and not scn["msgs"][by["same_id_as"]]["notif"]:
+                            await w2.send(JSONRPCRequest.model_validate({"jsonrpc": "2.0", "id": scn["msgs"][by["same_id_as"]]["id"], "method": "other/thing"}))
+                        await anyio.sleep(ticks(by["stay"]))
+                    sim.probe("second_connection_opened_and_closed_meanwhile")
+                except Exception as e_:  # noqa
+                    sim.rec("bystander", "failed", type(e_).__name__)
+
             async with anyio.create_task_group() as tg:
                 tg.start_soon(drain, name="drain-read")
+                if scn.get("bystander"):
+                    tg.start_soon(bystander, scn["bystander"], name="bystander")
                 for k, m in enumerate(scn["msgs"]):
                     if m["gap"]:
                         await anyio.sleep(ticks(m["gap"]))
